@@ -391,3 +391,44 @@ Definition known_classes (bs : nat) (l : list op) : list known := known_from (in
 
 Definition hknown_enc (nhosts bs : nat) (l : list (nat * op)) : list N :=
   flat_map (fun h => map known_id (known_classes bs (host_ops h l))) (seq 0 nhosts).
+
+(* ---- the side condition of the rename-inclusive theorems (Known.v) ----------------------------------------
+   Besides the known classes those theorems exclude: create_dir_all / remove_dir_all; renames between two
+   different directories; any creation of a file at a name a file left since the last crash (FsSafe.KRecreate -
+   the known finding Recreate above is narrower); a rename onto a name a directory was removed from since the
+   last crash; a crash while a durable entry has a non-durable ancestor. *)
+Definition same_parent (f r : path) : bool :=
+  match parent f, parent r with Some a, Some b => path_eqb a b | _, _ => false end.
+
+Definition c07r_op (o : op) : bool :=
+  match o with MkdirAll _ | RmdirAll _ => false | Rename f r => same_parent f r | _ => true end.
+
+Definition extra_excluded (d : dworld) (gh : ghost) (o : op) : bool :=
+  match o with
+  | Open _ p _ _ _ _ c n =>
+      match nget (names (dw d)) p with None => (c || n) && mem_path p (ggone gh) | _ => false end
+  | Spit p _ _ => match nget (names (dw d)) p with None => mem_path p (ggone gh) | _ => false end
+  | Rename f r =>
+      match nget (names (dw d)) f with
+      | Some (EFile _) => rename_ok (dw d) f r && mem_path r (ggdirs gh)
+      | _ => false
+      end
+  | _ => false
+  end.
+
+Fixpoint ksafe_from (d : dworld) (gh : ghost) (l : list op) : bool :=
+  match l with
+  | [] => true
+  | o :: l' =>
+      let (d', x) := dstep d o in
+      is_nil (kclasses d gh o) && negb (extra_excluded d gh o)
+      && (match o with Crash _ => negb (dangling d) | _ => true end)
+      && ksafe_from d' (kupdate d d' gh o x) l'
+  end.
+Definition ksafe (bs : nat) (l : list op) : bool := ksafe_from (init_dworld bs) ghost0 l.
+
+Definition c10r_op (o : op) : bool := match o with Crash _ => false | _ => c07r_op o end.
+
+(* plain-data rendering for a one-host script (correspondence cross-check against gen/fam_fs.py) *)
+Definition ksafe_enc (bs : nat) (l : list (nat * op)) : bool :=
+  forallb c07r_op (host_ops 0 l) && ksafe bs (host_ops 0 l).
